@@ -168,6 +168,10 @@ class CleanExplore(InputProp):
             pass
         fams.append(Product(sorted(BR_AROUND), sorted(BR_OUTER), sorted(BR_INLINE), BR_PATTERN, name="brwrap"))
         fams.append(Product(sorted(DEEP_SHAPES), sorted(DEEP_WRAP), DEEP_DEPTHS, name="deep"))
+        # cleaner histories: ONE TreeCleaner (as the PDF writer keeps one) cleans article A completely, then article B pass by pass
+        hsub = clean_names[::10] if tier == "quick" else clean_names[::3]
+        fams.append(Product(clean_names, hsub, name="history-ab"))
+        fams.append(Product(hsub, clean_names, name="history-ba"))
         fams.append(Seqs(clean_names, 2, minlen=2, name="clean2"))
         fams.append(Product(clean_names, [c[0] for c in W.CTX], name="clean-ctx"))
         if tier != "quick":
@@ -187,6 +191,8 @@ class CleanExplore(InputProp):
             return self.ctx[c[0]] % c[1]
         if fam == "clean-ctx":
             return self.ctx[c[1]] % self.clean[c[0]]
+        if fam.startswith("history"):
+            return self.clean[c[1]]
         if fam == "deep":
             o, cl = DEEP_WRAP[c[1]]
             n = c[2] // 4 if c[1] == "table" else c[2]  # (a table level is four tree levels; nested tables get slow beyond ~60)
@@ -220,6 +226,15 @@ class CleanExplore(InputProp):
             if v5:
                 return self.result("advtree-invalid", v5, v6, counters)
             tc = self.treecleaner.TreeCleaner(tree, save_reports=True)
+            if case[0].startswith("history"):
+                try:
+                    pre = self.parse(title="Earlier page", raw=self.clean[case[1][0]], wikidb=self.db, lang="en")
+                    self.advtree.build_advanced_tree(pre)
+                    tc = self.treecleaner.TreeCleaner(pre, save_reports=True)
+                    tc.clean_all()
+                    tc.tree = tree
+                except Exception as e:
+                    v6.append({"sig": "clean_all:" + exc_signature(e), "msg": "clean_all raised %r on %r" % (e, self.clean[case[1][0]][:200])})
             h = tree_hash(tree)
             steps = 1
             deep_tag = "|tree-depth>=150" if tree_depth(tree) >= 150 else ""
